@@ -17,7 +17,7 @@
 (* and require CallFails = {}, the trace specification takes r from the    *)
 (* recorded execution and logs CallFails.                                  *)
 (***************************************************************************)
-EXTENDS ContractsArith, ContractsBase, TLC
+EXTENDS ContractsElem, TLC
 
 VARIABLES regs, memo
 
@@ -64,7 +64,9 @@ MemoFails(op, A, r, meta) ==
   ELSE {}
 
 \* ---- relations between different operations (bit-for-bit identities) ---------
-ZeroSignOnly(x, y) == IsZeroTF(x) /\ IsZeroTF(y)
+\* the two results differ only in the sign bit of words that are zero
+SameUpToZeroSign(v, w) == v = w \/ (IsZeroW(v) /\ IsZeroW(w))
+ZeroSignOnly(x, y) == SameUpToZeroSign(x.hi, y.hi) /\ SameUpToZeroSign(x.lo, y.lo)
 RelEq(p, c, x, y) == IF x = y THEN {} ELSE
                      IF ZeroSignOnly(x, y) THEN Fail(p, c \o ":zero_sign_only") ELSE Fail(p, c)
 \* expected TwoFloat `want` (computed from memo entries) against the result r
@@ -105,9 +107,6 @@ RelationFails(op, A, r) ==
 
 \* ---- IEEE self-test events (validate this specification's IEEE module and the encoder
 \*      against host binary64 arithmetic; they decide no property) --------------------------
-F32 == INSTANCE IEEE WITH P <- 24, EMIN <- -126, EMAX <- 127
-CastF32(w) == IF w.k = "f" THEN F32!RN(D(w)) ELSE w
-
 IeeeFails(op, A) ==
   LET w(i) == A[i].w IN
   CASE op = "h_add" -> Chk(FAdd(w(1), w(2)) = w(3), "tool", "ieee_add")
@@ -127,6 +126,8 @@ FamilyFails(fam, op, A, r) ==
          ArithFails(op, A, r, IF op = "rem_euclid" /\ Has("div_euclid", A) THEN [has |-> TRUE, x |-> GotTF("div_euclid", A)]
                                      ELSE [has |-> FALSE, x |-> TF(Zero(FALSE), Zero(FALSE))])
     [] fam = "load" \/ fam = "base" -> BaseFails(op, A, r)
+    [] fam = "conv" -> ConvFails(op, A, r)
+    [] fam = "misc" \/ fam = "pow" \/ fam = "const" \/ fam = "elem" -> ElemFails(fam, op, A, r)
     [] fam = "ieee" -> IeeeFails(op, A)
     [] OTHER -> {<<"tool", "unknown_family">>}
 
